@@ -119,7 +119,7 @@ def documented_dft_size(Lv, pad):
     return D
 
 
-def oracle_features(c, x, config, D):
+def oracle_features(c, x, config, D, window=None):
     Lv, Sv = c.frame_length, c.frame_shift
     N = len(x)
     ncoef = c.bank.num_filts + int(c.includes_energy)
@@ -140,7 +140,7 @@ def oracle_features(c, x, config, D):
     out = []
     for k in range(nf):
         fr = xp[k * Sv:k * Sv + Lv]
-        X = np.fft.fft(fr * c._window, n=D)
+        X = np.fft.fft(fr * (window if window is not None else c._window), n=D)
         row = []
         if c.includes_energy:
             e = np.mean(fr.astype(np.float64) ** 2)
@@ -178,14 +178,29 @@ def end_to_end(ctx):
         bank = ctor(rate, lo)
         flm = rng.choice([None, 2.5, 3.1, 4.0, 5.1, 6.3, 8.0, 12.7, 16.0, 25.0, 32.0])
         fsm = rng.choice([1.0, 2.0, 2.5, 10.0])
-        kw = dict(frame_length_ms=flm, frame_shift_ms=fsm, frame_style=rng.choice(["causal", "centered"]),
+        kw = dict(frame_length_ms=flm, frame_shift_ms=fsm, frame_style=rng.choice(["causal", "centered", None]),
                   kaldi_shift=rng.random() < 0.4, include_energy=rng.random() < 0.5,
                   pad_to_nearest_power_of_two=rng.random() < 0.5, use_log=rng.random() < 0.5, use_power=rng.random() < 0.5,
-                  window_function=rng.choice([None, "hamming", "hann", "bartlett", "blackman"]))
+                  window_function=rng.choice([None, None, "hamming", "hann", "bartlett", "blackman"]))
+        if rep % 10 == 9:
+            # every documented default at once, on each kind of bank in turn (the defaults depend on the bank's phase)
+            name, ctor = mk[(rep // 10) % len(mk)]
+            bank = ctor(rate, lo)
+            kw.update(frame_style=None, window_function=None, frame_length_ms=None)
+            flm = None
+            ctx.count("e2e:all-defaults")
         try:
             c = compute.STFTFrameComputer(bank, **kw)
         except ValueError:
             continue
+        # the documented defaults, worked out here and not read from the computer: the frame style of a bank that is
+        # not zero-phase is "causal", and the window is GammaWindow for causal frames, HannWindow otherwise
+        style_doc = kw["frame_style"] or ("centered" if bank.is_zero_phase else "causal")
+        if c.frame_style != style_doc:
+            bad.append(dict(what="default frame_style", bank=name, got=c.frame_style, documented=style_doc))
+            continue
+        wname = kw["window_function"] or ("gamma" if style_doc == "causal" else "hann")
+        doc_window = filters.WindowFunction.from_alias(wname).get_impulse_response(c.frame_length)
         Lv, Sv = c.frame_length, c.frame_shift
         if not (0 < Sv <= Lv):
             continue
@@ -198,7 +213,7 @@ def end_to_end(ctx):
             if level == "burst":
                 x[N // 3:] *= 1e-4
             got = c.compute_full(x)
-            ref = oracle_features(c, x, config, D)
+            ref = oracle_features(c, x, config, D, window=doc_window)
             desc = dict(bank=name, rate=rate, low_hz=lo, frame_length=Lv, frame_shift=Sv, dft_size=D, N=N, level=level,
                         **{k: str(v) for k, v in kw.items()})
             ctx.case(desc, nontrivial=got.shape[0] > 0)
